@@ -9,6 +9,7 @@
    checks the instance of H_num_stable on every value of the case. *)
 From Coq Require Import List Bool NArith ZArith.
 From PC Require Import Base.Num Model.RoundTrip.
+From PC Require Model.NumFmt Check.C01num.   (* built with this file; used by the NumFmt batch *)
 Import ListNotations.
 Open Scope N_scope.
 
